@@ -253,6 +253,11 @@ func TestC01(t *testing.T) {
 		for ri := 1; ri < len(tr.Roles); ri++ {
 			tr.Roles[ri].Rot = rots[uu.N(len(rots), "rot")]
 		}
+		// the hosts' local time zones (replica 0 stays in UTC)
+		zones := []int{0, 0, 19800, -28800, 3600, 45900}
+		for ri := 1; ri < len(tr.Roles); ri++ {
+			tr.Roles[ri].TZ = zones[uu.N(len(zones), "tz")]
+		}
 		nb := uu.Range(8, maxBlocks, "nblocks")
 		var g *hist.Gen
 		blocks := 0
